@@ -19,33 +19,37 @@ def install(eng):
            [f"gwf.conf:{m}" for m in ("try_int", "try_true", "try_false", "try_conv")]
     FILTERS = [k for k in eng.contracts if k.startswith(("gwf.filtering:", "dispatch:"))]
     eng.enumerator("schedule-small-dags", ["C01", "C02", "C05", "C06"], SCHED + ["gwf.scheduling:should_run"],
-                   lambda seed, focus: enum_schedule.replay(None, None, None, seed))
+                   lambda seed, focus: enum_schedule.replay(None, None, None, seed), crosscheck=True)
     from replay import enum_stale
-    eng.enumerator("should-run-small-files", ["C01"], ["gwf.scheduling:should_run"], enum_stale.replay)
+    eng.enumerator("should-run-small-files", ["C01"], ["gwf.scheduling:should_run"],
+                   lambda seed, focus: enum_stale.replay(None, None, None, seed), crosscheck=True)
+    CFS = [f"gwf.core:CachedFilesystem.{m}" for m in ("_lookup_file", "exists", "changed_at")]
+    eng.enumerator("cached-filesystem", ["C01", "C03", "C04"], CFS,
+                   lambda seed, focus: enum_stale.replay_fs(None, None, None, seed), crosscheck=True)
     eng.enumerator("graph-small-workflows", ["C03", "C04"], GRAPH,
-                   lambda seed, focus: enum_graph.replay(None, None, None, seed))
+                   lambda seed, focus: enum_graph.replay(None, None, None, seed), crosscheck=True)
     eng.enumerator("tracking-backend-scripts", ["C07", "C08", "C09", "C17"], BACKEND + CALLBACKS[:1],
-                   lambda seed, focus: enum_backend.replay(None, None, None, seed))
+                   lambda seed, focus: enum_backend.replay(None, None, None, seed), crosscheck=True)
     eng.enumerator("cancel-many-scripts", ["C17"], ["gwf.plugins.cancel:cancel_many", "gwf.plugins.cancel:cancel",
                                                      "gwf.backends.base:TrackingBackend.cancel"],
-                   lambda seed, focus: enum_backend.replay_cancel(None, None, None, seed))
-    eng.enumerator("config-scripts", ["C20"], CONF, lambda seed, focus: enum_conf.replay(None, focus, None, seed))
+                   lambda seed, focus: enum_backend.replay_cancel(None, None, None, seed), crosscheck=True)
+    eng.enumerator("config-scripts", ["C20"], CONF, lambda seed, focus: enum_conf.replay(None, focus, None, seed), crosscheck=True)
     eng.enumerator("cli-status-dryrun-run", ["C02", "C05", "C06", "C10"],
-                   SCHED + CALLBACKS + ["gwf.plugins.run:run", "gwf.plugins.status:status"] + FILTERS, enum_cli.run_c05)
+                   SCHED + CALLBACKS + ["gwf.plugins.run:run", "gwf.plugins.status:status"] + FILTERS, enum_cli.run_c05, crosscheck=True)
     # C06, second sentence (exact re-submission set after one change): no lemma generated, decided by this stand-in
     eng.enumerator("cli-rerun-after-one-change", ["C06"], SCHED + CALLBACKS + ["lemma:c06_convergence"], enum_cli.run_c06,
                    always=True)
-    eng.enumerator("cli-interrupted-run", ["C09"], SCHED + CALLBACKS + BACKEND + ["gwf.plugins.run:run"], enum_cli.run_c09)
+    eng.enumerator("cli-interrupted-run", ["C09"], SCHED + CALLBACKS + BACKEND + ["gwf.plugins.run:run"], enum_cli.run_c09, crosscheck=True)
     HASHES = [k for k in eng.contracts if "SpecHashes" in k or k in ("gwf.core:get_spec_hashes", "gwf.core:hash_spec")]
     eng.enumerator("cli-spec-hashes", ["C18"], HASHES + CALLBACKS + ["gwf.plugins.run:run", "gwf.plugins.touch:touch",
                    "gwf.plugins.clean:clean", "gwf.plugins.touch:touch_workflow", "gwf.plugins.touch:touch_workflow._visit"],
-                   enum_cli.run_c18)
+                   enum_cli.run_c18, crosscheck=True)
     eng.enumerator("cli-clean", ["C15"], ["gwf.plugins.clean:clean", "gwf.plugins.clean:_delete_file"] + FILTERS,
-                   enum_cli.run_c15)
+                   enum_cli.run_c15, crosscheck=True)
     eng.enumerator("cli-touch", ["C16"], ["gwf.plugins.touch:touch", "gwf.plugins.touch:touch_workflow",
-                                          "gwf.plugins.touch:touch_workflow._visit"] + FILTERS, enum_cli.run_c16)
+                                          "gwf.plugins.touch:touch_workflow._visit"] + FILTERS, enum_cli.run_c16, crosscheck=True)
     eng.enumerator("cli-cancel", ["C17"], ["gwf.plugins.cancel:cancel", "gwf.plugins.cancel:cancel_many",
-                                           "gwf.backends.base:TrackingBackend.cancel"] + FILTERS, enum_cli.run_c17)
+                                           "gwf.backends.base:TrackingBackend.cancel"] + FILTERS, enum_cli.run_c17, crosscheck=True)
     # C03, last clause: `gwf info` prints the graph's relations (the info plugin has no deductive contract)
     eng.enumerator("cli-info", ["C03"], GRAPH, enum_cli.run_c03_info, always=True)
     # C04, last clause: no stack-depth / termination obligations are generated; decided (bounded) here. The
@@ -62,14 +66,14 @@ def install(eng):
     OPS = [k for k in eng.contracts if k.startswith(("gwf.backends.slurm:", "gwf.backends.sge:", "gwf.backends.lsf:",
                                                      "gwf.backends.utils:"))]
     eng.enumerator("ops-command-lines", ["C07"], OPS + BACKEND, enum_ops.run([enum_ops.check_submit, enum_ops.check_submit_history]), always=True)
-    eng.enumerator("ops-command-lines-on-failure", ["C17"], OPS + BACKEND, enum_ops.run([enum_ops.check_submit]))
+    eng.enumerator("ops-command-lines-on-failure", ["C17"], OPS + BACKEND, enum_ops.run([enum_ops.check_submit]), crosscheck=True)
     eng.enumerator("ops-state-tables", ["C08"], OPS + BACKEND, enum_ops.run([enum_ops.check_states, enum_ops.check_job_tables]), always=True)
     # C10: compile_script has no unbounded contract (order of option lines): this bounded stand-in decides that clause
     eng.enumerator("job-scripts-under-bash", ["C10"], OPS, enum_ops.run([enum_ops.check_scripts, enum_ops.check_logs]), always=True)
     eng.enumerator("command-failure-kinds", ["C09", "C07", "C17"], ["gwf.backends.utils:call"] + OPS + BACKEND,
-                   enum_ops.run([enum_ops.check_call_failures]))
+                   enum_ops.run([enum_ops.check_call_failures]), crosscheck=True)
     eng.enumerator("option-resolution", ["C10"], ["gwf.scheduling:submit_backend"] + CALLBACKS,
-                   enum_ops.run([enum_ops.check_option_resolution]))
+                   enum_ops.run([enum_ops.check_option_resolution]), crosscheck=True)
     WF = [k for k in eng.contracts if k.startswith(("gwf.workflow:", "gwf.utils:", "gwf.core:_check_path", "gwf.core:_has_nonprintable"))]
     # C19: map naming, find_workflow and invocation-directory independence have no deductive contract: this bounded
     # stand-in (real command line from the project root, a subdirectory and elsewhere with -f) decides those clauses
